@@ -11,16 +11,29 @@
    denotes is read from the output bytes (identity words), together with the error class.
    GNU ld and ld.lld link the same inputs: a case counts against wild only if a reference linker
    supports the rule; if both agree with each other against the rule the run is a tool error.
+3. COMDAT section groups (family `comdat`, specs/Comdat.tla + vlib/comdat.py): TLC enumerates every sequence of
+   <= 3 files x {object, lazily extracted archive member} x {caller only (weak / non-weak reference to the extra
+   member), group variant 1 strong/weak, group variant 2 (other sizes, one more member section) strong/weak,
+   definition outside any group strong/weak}; the rule (the first LOADED file in command-line order that carries
+   the signature keeps its group, all other carriers lose theirs with every member section, symbols of discarded
+   groups are references, not definitions) is compared with the transcription of what wild does; every configuration
+   (quick: a fixed core + a seeded sample) is assembled, linked by wild (--gc-sections on/off, 1/2/8 threads,
+   seeded yields, thin archives), GNU ld and lld, and the linked program is EXECUTED: every file's caller reports
+   which variant of f / fd / h it reached; .symtab (value, size, bytes at the value) and the byte patterns of
+   discarded variants in the output file are checked too.
 """
-from vlib import symres
+from concurrent.futures import ThreadPoolExecutor
+
+from vlib import comdat, symres
+from vlib.common import trim_samples
 
 PROP = "C02"
 META = {
     "ready": True,
     "level": "model_checking",
     "technique": "TLA+ decision-procedure spec (declarative ELF rule vs operational model of wild's resolution phases) exhaustively checked by TLC; every enumerated configuration replayed into the real linker and compared by identity words, with GNU ld and lld as cross-oracles",
-    "level_text": "TLC enumerates the full product of file kinds (object, archive member, whole-archive member, shared, as-needed shared) x definition kinds (none, undefined, weak undefined, weak, strong, common 4/8, GNU unique; plus a family with COMMON definitions of three sizes 4/8/16 in every order over three/four files, the size of the chosen common being part of the observed identity: st_size of the symbol in the output and the room really allocated for it) x visibilities for two files and one name (and three files in the thorough tier), with and without --allow-multiple-definition; for each configuration the rule's prediction (binding of every reference by (file, name), error class) is compared with what the real wild produced.",
-    "level_note": "Bounds: <= 3 files, one name per C02 family (two in the C03 families), x86-64, non-PIE executables, data symbols, no COMDAT groups, no symbol versions. Which shared object provides a dynamic definition is not observed (only that the reference is dynamic). Cases where GNU ld and lld disagree with each other and neither supports the rule are not judged.",
+    "level_text": "TLC enumerates the full product of file kinds (object, archive member, whole-archive member, shared, as-needed shared) x definition kinds (none, undefined, weak undefined, weak, strong, common 4/8, GNU unique; plus a family with COMMON definitions of three sizes 4/8/16 in every order over three/four files, the size of the chosen common being part of the observed identity: st_size of the symbol in the output and the room really allocated for it) x visibilities for two files and one name (and three files in the thorough tier), with and without --allow-multiple-definition; for each configuration the rule's prediction (binding of every reference by (file, name), error class) is compared with what the real wild produced. COMDAT section groups (Comdat.tla): every sequence of <= 3 files (4368 configurations; four files in the thorough tier) over {object, archive member} x {caller only, group variant 1, group variant 2 with other sizes and an extra member section, each with strong or weak symbols, strong/weak definition outside any group}: the kept group is the one of the first loaded carrier in command-line order (unextracted members do not count), symbols of discarded groups are not definitions (no duplicate error, references - also those of the losing file's own non-group sections - bind to the kept group, a name only the losing variant defines is undefined), a strong definition outside groups plus a kept strong group definition is a duplicate; observed by executing the linked program, from .symtab and by searching the output for the bytes of discarded variants, with --gc-sections on and off and 1/2/8 threads.",
+    "level_note": "Bounds: <= 3 files, one name per C02 family (two in the C03 families), x86-64, non-PIE executables, data symbols (functions and data in the COMDAT family), COMDAT groups: one signature, two variants, x86-64 only, no .gnu.linkonce (wild has no support for it), local symbols of discarded group sections referenced from outside the group are out of scope; no symbol versions. Which shared object provides a dynamic definition is not observed (only that the reference is dynamic). Cases where GNU ld and lld disagree with each other and neither supports the rule are not judged.",
     "engine": "tlc",
 }
 # deviations this property owns (the others are recorded under the property they belong to)
@@ -45,8 +58,20 @@ def run(ctx):
     if not ctx.quick:
         plan.append(("mc/SymRes_c02_triple.cfg", 2400, 1))
         plan.append(("mc/SymRes_c02_common4.cfg", 900, 2))
-    cov = symres.run_plan(ctx, PROP, plan, ASPECTS, "both", oracle_known, skip_load_divergent=OWN)
+    # the COMDAT family (its own TLC module and generator) runs beside the SymRes families
+    with ThreadPoolExecutor(max_workers=1) as ex:
+        fcd = ex.submit(comdat.run_family, ctx, PROP)
+        try:
+            cov = symres.run_plan(ctx, PROP, plan, ASPECTS, "both", oracle_known, skip_load_divergent=OWN)
+        finally:
+            cd = fcd.result()
     cov.pop("_pool", None)
+    cov["states"] += cd["states"]
+    cov["transitions"] += cd["transitions"]
+    cov["traces_validated_against_impl"] += cd["replayed"]
+    cov["tlc_runs"] += cd["tlc_runs"]
+    cov["comdat_binding_demo"] = cd["binding_demo"]
+    cov["samples"] = list(cov["samples"]) + trim_samples(cd["samples"], 1, 900)
     return {
         "level": "model_checking",
         "coverage": cov,
@@ -54,5 +79,6 @@ def run(ctx):
             "GNU ld 2.40 and ld.lld 14 are the arbiters of the rule where the property text is silent; a case is held against wild only when at least one of them supports the rule",
             "an undefined weak reference that wild leaves as a dynamic weak reference no linked library satisfies is counted as resolving to zero",
             "the definition a reference denotes is read from output bytes (identity word at the address stored for `.quad name`), commons by their .symtab size",
+            "COMDAT family: GNU ld and lld resolve groups while reading the command line sequentially; configurations in which wild's name-table fixpoint loads other archive members than the sequential reading (C03: shadowed-lazy-definition), or in which a member that precedes the kept carrier is extracted after it, are replayed but not judged",
         ],
     }
